@@ -47,6 +47,7 @@ class OperationDurationParameters:
     def duration_mapper(self) -> Dict[str, float]:
         return {
             'MZ': self.duration_mz,
+            'M': self.duration_mz,
             'CZ': self.duration_cz,
             'H': self.duration_h,
             'X': self.duration_x,
